@@ -69,6 +69,8 @@ class TreeDriver:
         if spec == 'h':
             h = self.new_handle()
             return h, MNode('h', h)
+        if isinstance(spec, list) and spec[0] == 'existing':
+            return spec[1], spec[2]
         if isinstance(spec, list) and spec[0] == 'reuse':
             # a map object that was part of the tree until another value
             # was assigned under its name (it is in no map any more, but
@@ -157,6 +159,19 @@ class TreeDriver:
         finally:
             self.root, self.model = saved_root, saved_model
         self.flags.add('set-via-submap')
+        return True
+
+    def mount(self, src, dst):
+        """The sub-map object found at ``src`` is ALSO assigned under
+        ``dst`` (one map object reachable in two places; its back-link can
+        only name one of them, which is not judged)."""
+        node = self.find(src)
+        if node is None or node.kind != 'm' or src == dst \
+                or (dst + '/').startswith(src + '/') \
+                or (src + '/').startswith(dst + '/'):
+            return False
+        self.set(dst, ['existing', self.real_map(src), node])
+        self.flags.add('map-mounted-twice')
         return True
 
     def reassign(self, key):
